@@ -19,6 +19,7 @@ RULE = ("case = initial account/slot table + script tree (depth <= 6, <= 60 ops,
         "script; non-trivial = a frame (or failing call) that contains a precompile call is reverted while an EVM write or "
         "bank move made before/inside/after it has to be kept or dropped; distinct = distinct input")
 ASSUMPTIONS = [
+    "observations: OTouch = (GetBalance wei, bank unibi on the current ctx); OReadState = (GetState, GetCommittedState); the model emits the same list and the reference dictates what the flagged ones must show",
     "bank SendCoins of unibi between plain accounts = balance move or no write at all (insufficient funds); other bank/wasm effects of precompile bodies live in the same cache multistore and are reverted by the same snapshot",
     "contract code is content-addressed: the code table is not modelled, an account's code id stands for hash+bytes (DirtyCode flag not modelled)",
     "scripts outside `wf` (bank send from/to an account that self-destructed earlier in the tx; create on an address with storage written in the tx) are compared with the model of the code only, not with the reference",
@@ -207,7 +208,34 @@ def shrink_candidates(inp):
 
 
 MANIFEST = {
-    "level_claimed": {"category": "proof", "text": "(filled in below)", "design_ref": "DESIGN.md §5 C04"},
-    "level_note": "",
-    "technique": "",
+    "level_claimed": {
+        "category": "proof",
+        "text": ("Unbounded Coq theorem C04_frame_atomicity: for EVERY per-tx call limit, initial store and well-formed script "
+                 "(any length and nesting of EVM writes incl. dust, nonce, code, storage, logs, refund, access list, create, "
+                 "selfdestruct; reads; Snapshot/Revert frames; precompile calls succeeding / failing after OnRunStart / refused "
+                 "by the limit, whose bodies move unibi by bank sends mirrored into the StateDB) the state written by "
+                 "StateDB.Commit in the two-layer model of x/evm/statedb (journal + dirty counts + object cache over tx store "
+                 "and cache store, as repaired by 72672e0) equals the final state of a copy-on-frame reference, i.e. a reverted "
+                 "frame undoes exactly its own EVM and bank effects. Companion theorems: reverted frames are invisible up to "
+                 "caching (P1), balance views agree inside every precompile body, reads see the reference, calls beyond "
+                 "maxMultistoreCacheCount are refused without effect, and vm_compute witnesses refute the property for the "
+                 "pre-fix behaviour (F2, F2b, F2c, F2d). The design's proof plan P1-P5 was completed; the bounded fallback "
+                 "was not needed. The model is run on every check against the real statedb.StateDB + bank keeper on the "
+                 "same generated scripts (two drivers: API calls one by one and through precompile.OnRunStart) and the "
+                 "proved-sound checker Pb (reference vs observed) is evaluated on those traces; the call limit, the shape "
+                 "of its check, the OnRunStart call order and the set of precompile entry points are re-extracted from /repo."),
+        "design_ref": "DESIGN.md §5 C04",
+    },
+    "level_note": ("Proved about the hand-written model at the vm.StateDB interface (interpreter usage protocol), not about "
+                   "Go: the tie is the correspondence run (0 mismatches required) + generated facts. Precompile bodies are bank "
+                   "sends of unibi; EVM calls made from inside a precompile body, other coins / wasm state (same cache "
+                   "multistore, same snapshot), code table, gas and events are not modelled. Domain `wf` excludes bank sends "
+                   "from/to an account that self-destructed earlier in the tx (there the bank sees 0 while the StateDB shows "
+                   "later credits - documented boundary) and evm.create on an address with storage written in the tx. "
+                   "Trusted: Coq kernel + vm_compute, the go/ast extractor, driver canonicalisation, check.py."),
+    "technique": ("Coq: refinement of a journaled two-layer state machine to a stack-of-copies reference via (1) a caching "
+                  "preorder under which undo/unwind are monotone and every operation incl. a whole precompile call is "
+                  "'unwind gives back a refinement', (2) a per-address simulation relation (visible state + commit readiness) "
+                  "monotone under that preorder and preserved by every forward step, (3) commit = flush of the visible state; "
+                  "differential correspondence of the executable model with the implementation; generated facts."),
 }
